@@ -8,6 +8,7 @@ import (
 	_ "github.com/saucelabs/forwarder/verifharness/c07"
 	_ "github.com/saucelabs/forwarder/verifharness/c08"
 	_ "github.com/saucelabs/forwarder/verifharness/c14"
+	_ "github.com/saucelabs/forwarder/verifharness/c15"
 	_ "github.com/saucelabs/forwarder/verifharness/c16"
 	_ "github.com/saucelabs/forwarder/verifharness/c17"
 	_ "github.com/saucelabs/forwarder/verifharness/c18"
